@@ -13,7 +13,7 @@ const whyRing = "a ring walk that leaves on cursor != start visits one node: are
 func init() {
 	register(&propDef{
 		id:          "C01",
-		explanation: "Decides structural clauses of C01: (table) the predicate deciding whether a closed edge bounds the solution (isContributingClosed) equals, on every cell of the code-derived partition of (fillRule, clipType, polytype, windCount, windCount2), the set-theoretic table the property states; (open-guard) the boundary test of intersectEdges' open branch is the same own-set test; (ring) every ring walk over OutPt/OutPt2/Vertex lists leaves on cursor==start, i.e. visits the whole ring; (order) the sort comparators implement the sweep order (minima bottom-up, intersections bottom-up then left to right); (mirror) intersectEdges decides and updates winding state under Negative exactly as under Positive on the negated state; (table2) two crossing same-set boundary edges start a polygon exactly where the boolean table has a boundary; (grow/split) records split off during clean-up are visited, and a ring split by a horizontal join is relabelled before ownership of the entry point is tested; (live) no call to a sweep/repair mechanism sits in a constant-dead block. Also: (wind) the winding-count representation (windCount = larger-magnitude winding of the two regions an edge separates, R - L = windDx, windCount2 = the other set's winding there) is preserved by setWindCountForClosedPathEdge and by both crossing cases of intersectEdges on every cell of a first-principles region model; (ael.join) a new left bound is never spliced in after the left half of a joined pair; (join.advance) an edge that moves to its next segment is tested for a join on every exit; (merged-owner) a record emptied by a merge gets an owner in flat mode too; (horz-roles) duplicateOp's flag is true exactly for the left-to-right segment of a horizontal join; (area-sign) every signed-area function uses the same (previous minus current) shoelace convention. Does NOT decide the sweep's geometry: edge ordering, intersection rounding, winding update arithmetic, join/split topology.",
+		explanation: "Decides structural clauses of C01: (table) the predicate deciding whether a closed edge bounds the solution (isContributingClosed) equals, on every cell of the code-derived partition of (fillRule, clipType, polytype, windCount, windCount2), the set-theoretic table the property states; (open-guard) the boundary test of intersectEdges' open branch is the same own-set test; (ring) every ring walk over OutPt/OutPt2/Vertex lists leaves on cursor==start, i.e. visits the whole ring; (order) the sort comparators implement the sweep order (minima bottom-up, intersections bottom-up then left to right); (mirror) intersectEdges decides and updates winding state under Negative exactly as under Positive on the negated state; (table2) two crossing same-set boundary edges start a polygon exactly where the boolean table has a boundary; (grow/split) records split off during clean-up are visited, and a ring split by a horizontal join is relabelled before ownership of the entry point is tested; (live) no call to a sweep/repair mechanism sits in a constant-dead block. Also: (wind) the winding-count representation (windCount = larger-magnitude winding of the two regions an edge separates, R - L = windDx, windCount2 = the other set's winding there) is preserved by setWindCountForClosedPathEdge and by both crossing cases of intersectEdges on every cell of a first-principles region model; (ael.join) a new left bound is never spliced in after the left half of a joined pair; (join.advance) an edge that moves to its next segment is tested for a join on every exit; (merged-owner) a record emptied by a merge gets an owner in flat mode too; (horz-roles) duplicateOp's flag is true exactly for the left-to-right segment of a horizontal join; (area-sign) every signed-area function uses the same (previous minus current) shoelace convention. (all-paths) every input path's points reach the vertex list unless it has none; (join.mirror) checkJoinLeft and checkJoinRight coincide under exchanging the neighbour side. Does NOT decide the sweep's geometry: edge ordering, intersection rounding, winding update arithmetic, join/split topology.",
 		notDecided:  []string{"active-edge ordering (isValidAelOrder)", "intersection detection and rounding", "horizontal processing, joins and splits", "doSplitOp's area condition (no in-repo oracle)"},
 		rules: []func(*Ctx){
 			ruleAelJoinSplice("C01.ael.join"),
@@ -37,7 +37,7 @@ func init() {
 	})
 	register(&propDef{
 		id:          "C09",
-		explanation: "Decides structural clauses of C09: (table) isContributingOpen equals the property's coverage table (Intersection: inside clip; Union: outside both; Difference: outside clip) on every cell of (fillRule, clipType, windCount, windCount2); (guard) an open edge is cut at a closed edge exactly when that edge bounds its own set; (skip) winding scans neither count nor are changed by open edges; (route) open records reach only the open solution; (horz) an open path's terminal horizontal consults the range test before intersecting a further edge. Also: (skip/search) the search for the nearest closed edge of the same set passes over open edges; (prev-hot) getPrevHotEdge returns only an edge it found hot and not open; (scratch) each open piece is built in a new variable (typestate). Does NOT decide cut positions or that pieces are sub-polylines.",
+		explanation: "Decides structural clauses of C09: (table) isContributingOpen equals the property's coverage table (Intersection: inside clip; Union: outside both; Difference: outside clip) on every cell of (fillRule, clipType, windCount, windCount2); (guard) an open edge is cut at a closed edge exactly when that edge bounds its own set; (skip) winding scans neither count nor are changed by open edges; (route) open records reach only the open solution; (horz) an open path's terminal horizontal consults the range test before intersecting a further edge. Also: (skip/search) the search for the nearest closed edge of the same set passes over open edges; (prev-hot) getPrevHotEdge returns only an edge it found hot and not open; (scratch) each open piece is built in a new variable (typestate). (cut-at) Union cuts open paths at closed edges producing output, Intersection/Difference at clip edges only. Does NOT decide cut positions or that pieces are sub-polylines.",
 		notDecided:  []string{"cut positions (intersection rounding)", "sub-polyline-ness of the pieces", "horizontal open edges in doHorizontal", "Xor for open paths (the property does not constrain it)"},
 		rules: []func(*Ctx){
 			ruleOpenCutCandidates("C09.cut-at"),
@@ -82,7 +82,7 @@ func init() {
 func init() {
 	register(&propDef{
 		id:          "C07",
-		explanation: "Decides structural clauses of C07 for every D entry point (enumerated by type): (prec) the precision that reaches math.Pow(10,p) is the caller's value unmodified (a constant 2 only when the optional argument is absent) and a [-8,8] range check with the ErrPrecisionRange panic dominates it; (in) every PathD/PathsD/RectD input reaches 64-bit code only through ScalePath(s)DToPath(s)64/ScaleRectD with this call's scale, delta and arc tolerance are multiplied by it, the miter limit is not; (out) every PathD/PathsD result is ScalePath(s)64ToPath(s)D(x, 1/scale) with the same scale (or delegated to another D entry point); (round) the quantiser rounds coord*scale to an integer axis by axis and rectangles use the same quantiser; (same) after removing scaling and validation the wrapper calls exactly what its 64-bit sibling calls, with the same constants. Does NOT decide bit-exact equality of the decimal round trip or float overflow at the domain edge.",
+		explanation: "Decides structural clauses of C07 for every D entry point (enumerated by type): (prec) the precision that reaches math.Pow(10,p) is the caller's value unmodified (a constant 2 only when the optional argument is absent) and a [-8,8] range check with the ErrPrecisionRange panic dominates it; (in) every PathD/PathsD/RectD input reaches 64-bit code only through ScalePath(s)DToPath(s)64/ScaleRectD with this call's scale, delta and arc tolerance are multiplied by it, the miter limit is not; (out) every PathD/PathsD result is ScalePath(s)64ToPath(s)D(x, 1/scale) with the same scale (or delegated to another D entry point); (round) the quantiser rounds coord*scale to an integer axis by axis and rectangles use the same quantiser; (same) after removing scaling and validation the wrapper calls exactly what its 64-bit sibling calls, with the same constants. Also: (descale) ScalePath64ToPathD produces every coordinate through the decimal library, with no float product or quotient of a converted coordinate. Does NOT decide bit-exact equality of the decimal round trip or float overflow at the domain edge.",
 		notDecided:  []string{"bit-exactness of ScalePath64ToPathD's decimal multiplication", "float overflow when |coord|*10^p leaves the integer domain", "behaviour of caller-supplied scale functions (*WithScaleFunc)"},
 		rules: []func(*Ctx){
 			ruleDescaleExact("C07.descale", []string{"ScalePath64ToPathD"}), ruleScale("C07"), ruleQuantiserReturns("C07.round.returns")},
@@ -158,7 +158,7 @@ func init() {
 func init() {
 	register(&propDef{
 		id:          "C17",
-		explanation: "Decides structural clauses of C17: (det) sentence 1 completely, modulo the standard library: in the package and the reachable part of govalues/decimal there is no range over a map, goroutine, channel, select, time/rand/os/runtime/sync use, pointer-to-integer conversion or %p formatting, and no package-level variable is ever written, so equal inputs give bit-identical outputs; (cmp) the comparison closures handed to sort.Slice are strict weak orders on every ordering of their keys; (mirror) in every `switch fillRule` the Negative arm is the Positive arm with all winding operands negated, and the contribution tables are sign-mirrors — the structural form of 'all paths reversed with Positive and Negative exchanged'; (sym) the contribution table ignores the polytype for Union/Intersection/Xor (subject/clip exchange); (dup) while a path becomes the vertex ring an input point is skipped exactly when it equals the previously kept point, so repeating a vertex changes nothing and nothing else is dropped. Does NOT decide permutation/rotation invariance of the region or lattice symmetries of the sweep.",
+		explanation: "Decides structural clauses of C17: (det) sentence 1 completely, modulo the standard library: in the package and the reachable part of govalues/decimal there is no range over a map, goroutine, channel, select, time/rand/os/runtime/sync use, pointer-to-integer conversion or %p formatting, and no package-level variable is ever written, so equal inputs give bit-identical outputs; (cmp) the comparison closures handed to sort.Slice are strict weak orders on every ordering of their keys; (mirror) in every `switch fillRule` the Negative arm is the Positive arm with all winding operands negated, and the contribution tables are sign-mirrors — the structural form of 'all paths reversed with Positive and Negative exchanged'; (sym) the contribution table ignores the polytype for Union/Intersection/Xor (subject/clip exchange); (dup) while a path becomes the vertex ring an input point is skipped exactly when it equals the previously kept point, so repeating a vertex changes nothing and nothing else is dropped. The comparator rules read sort.Slice and slices.SortFunc closures alike. Does NOT decide permutation/rotation invariance of the region or lattice symmetries of the sweep.",
 		notDecided:  []string{"invariance under path permutation, start-vertex rotation, vertex duplication (tie-breaking in isValidAelOrder)", "path reversal under EvenOdd", "the 8 lattice symmetries (the sweep is not symmetric in Y by construction)", "horzSegSort is not antisymmetric (deviation, only region-equivalent output differences could be produced)"},
 		rules: []func(*Ctx){
 			ruleForbidden("C17.det", true),
@@ -177,7 +177,7 @@ func init() {
 func init() {
 	register(&propDef{
 		id:          "C05",
-		explanation: "Decides structural clauses of C05: (join) offsetPoint's dispatch over JoinType builds exactly the constructor set of the property's table (Miter: miter or square by the limit test; Square: square; Bevel: bevel; Round: arc; the near-straight shortcut uses doMiter only for non-round joins; the concave arm emits perp(prev), vertex, perp(curr)); (sign) groupDelta is -delta / +delta / |delta| by (end type, pathsReversed), arcs turn with the sign of groupDelta, NewGroup strips duplicates with the right closed flag and takes the orientation from the path owning the lowest vertex; (union) the clean-up is Execute(Union, reversed ? Negative : Positive) with reverseSolution = ReverseSolution != reversed; (small) |delta| < 0.5 returns the stripped input before any constructor; (xy) every point constructed in offset.go pairs X with X and Y with Y (rotations exempted by name). Does NOT decide any distance statement (band containment, k*delta bound, arc tolerance), over-shrinking or hole growth.",
+		explanation: "Decides structural clauses of C05: (join) offsetPoint's dispatch over JoinType builds exactly the constructor set of the property's table (Miter: miter or square by the limit test; Square: square; Bevel: bevel; Round: arc; the near-straight shortcut uses doMiter only for non-round joins; the concave arm emits perp(prev), vertex, perp(curr)); (sign) groupDelta is -delta / +delta / |delta| by (end type, pathsReversed), arcs turn with the sign of groupDelta, NewGroup strips duplicates with the right closed flag and takes the orientation from the path owning the lowest vertex; (union) the clean-up is Execute(Union, reversed ? Negative : Positive) with reverseSolution = ReverseSolution != reversed; (small) |delta| < 0.5 returns the stripped input before any constructor; (xy) every point constructed in offset.go pairs X with X and Y with Y (rotations exempted by name). Also: (arc-sign) every negation of stepSin is guarded by a test of groupDelta; (emit-all) each per-path offset routine hands a ring to the solution on every return path, or drops it only after examining its orientation; (ipt) intersectPoint's two vertical-line cases are mirror images. Does NOT decide any distance statement (band containment, k*delta bound, arc tolerance), over-shrinking or hole growth.",
 		notDecided:  []string{"containment of the (delta - tol) band and the k*delta outer bound", "arc tolerance of round joins", "over-shrinking to empty, hole growth", "the numeric thresholds of the dispatch (0.999, mitLimSqr)"},
 		rules: []func(*Ctx){
 			ruleArcSignFollowsGroup("C05.arc-sign"),
@@ -207,7 +207,7 @@ func init() {
 	})
 	register(&propDef{
 		id:          "C16",
-		explanation: "Decides structural clauses of C16: (subseq) the result is one in-order pass appending path[i] exactly when flags[i] is false, and paths with fewer than 4 points are returned unchanged; (ends) for open paths the two end cells start at MaxFloat64 and no later store refreshes a cell without idx != 0 && idx != high, for closed paths both neighbours are refreshed after every removal; (sibling) SimplifyPath64/SimplifyPaths64 equal SimplifyPathD/SimplifyPathsD modulo types and helper names; (diff) the distance reads coordinates only through same-axis differences, hence is translation invariant; (width) at |coord| <= 2^29 the integer distance has no wrapped int64 intermediate and its squared cross product is exact in sign and zero-ness (epsilon 0 removes only exactly collinear vertices). Also: (ring) getNext/getPrior return an index whose flag was the last one tested and found clear on every explored return path. Does NOT decide the greedy removal order, 'no retained vertex within epsilon' or scale-by-2^k invariance of float rounding.",
+		explanation: "Decides structural clauses of C16: (subseq) the result is one in-order pass appending path[i] exactly when flags[i] is false, and paths with fewer than 4 points are returned unchanged; (ends) for open paths the two end cells start at MaxFloat64 and no later store refreshes a cell without idx != 0 && idx != high, for closed paths both neighbours are refreshed after every removal; (sibling) SimplifyPath64/SimplifyPaths64 equal SimplifyPathD/SimplifyPathsD modulo types and helper names; (diff) the distance reads coordinates only through same-axis differences, hence is translation invariant; (width) at |coord| <= 2^29 the integer distance has no wrapped int64 intermediate and its squared cross product is exact in sign and zero-ness (epsilon 0 removes only exactly collinear vertices). Also: (ring) getNext/getPrior return an index whose flag was the last one tested and found clear on every explored return path. (early) the input is returned untouched only on its length. Does NOT decide the greedy removal order, 'no retained vertex within epsilon' or scale-by-2^k invariance of float rounding.",
 		notDecided:  []string{"the greedy order of removals (beyond: getNext/getPrior return a still-present index)", "on return no retained vertex is within epsilon of its neighbours' line", "invariance under scaling by a power of two (float rounding)"},
 		rules: []func(*Ctx){
 			ruleSimplify("C16"),
@@ -243,7 +243,7 @@ func init() {
 	})
 	register(&propDef{
 		id:          "C06",
-		explanation: "Decides structural clauses of C06: (mirror) in getNextLocation, getIntersection and getLocation the Right arm is the left/right mirror image of the Left arm, Bottom of Top, and Top the diagonal image of Left — the clipper is equivariant under the rectangle's symmetries; (corner-live) no addCorner/addCornerLocation call is constant-dead; (fast) pathBounds is the bounds of the current path, disjoint paths are skipped and contained paths are returned as the input path itself; (bounds) the bounds accumulators start at the right extremes with independent per-axis updates. Also: (wrap) the predecessor of vertex 0 is the last vertex; (retire) tidyEdgePair reads the index of the slot it empties before relabelling the ring; (lag) checkEdges seeds its lagging edge set with the cyclic predecessor. Does NOT decide the crossing-history logic of executeInternal nor checkEdges/tidyEdgePair.",
+		explanation: "Decides structural clauses of C06: (mirror) in getNextLocation, getIntersection and getLocation the Right arm is the left/right mirror image of the Left arm, Bottom of Top, and Top the diagonal image of Left — the clipper is equivariant under the rectangle's symmetries; (corner-live) no addCorner/addCornerLocation call is constant-dead; (fast) pathBounds is the bounds of the current path, disjoint paths are skipped and contained paths are returned as the input path itself; (bounds) the bounds accumulators start at the right extremes with independent per-axis updates. Also: (wrap) the predecessor of vertex 0 is the last vertex; (retire) tidyEdgePair reads the index of the slot it empties before relabelling the ring; (lag) checkEdges seeds its lagging edge set with the cyclic predecessor. (skip-only) a path is skipped only on a length test or because its bounds miss the rectangle. Does NOT decide the crossing-history logic of executeInternal nor checkEdges/tidyEdgePair.",
 		notDecided:  []string{"crossing-history logic of executeInternal (firstCross/startLocs bookkeeping)", "checkEdges / tidyEdgePair re-joining (tidyEdgePair tests horizontal overlap on vertical edges: only region-equivalent differences could be produced)", "1-unit rounding of intersection points"},
 		rules: []func(*Ctx){
 			ruleRectMirror("C06.mirror"),
